@@ -79,6 +79,24 @@ def step (p : P) (toks : List String) : P × String :=
 
 end PoolDrv
 
+namespace ConcDrv
+
+/-- drop the trailing " n=<size>" of a sequential outcome (a concurrent caller cannot observe the size atomically) -/
+def stripSize (o : String) : String :=
+  match (o.splitOn " n=") with
+  | a :: _ :: _ => a
+  | _ => o
+
+/-- `<op> => <recorded result>`: execute the op on the sequential model, print the model's result -/
+def step (p : PoolDrv.P) (toks : List String) : PoolDrv.P × String :=
+  let op := toks.takeWhile (· ≠ "=>")
+  let (q, o) := PoolDrv.step p op
+  match op with
+  | "count" :: _ => (q, o)
+  | _ => (q, stripSize o)
+
+end ConcDrv
+
 namespace SrvDrv
 
 /-- MAX_CAPACITY, MAX_LIMITATION come with the `start` op (read from the real constants by the harness). -/
@@ -113,4 +131,5 @@ def main (args : List String) : IO Unit :=
   match args with
   | ["poolsrv"] => Proto.run (⟨0, 0, Srv.init 0⟩ : SrvDrv.St) SrvDrv.step
   | ["pool"] => Proto.run ([] : PoolDrv.P) PoolDrv.step
+  | ["poolconc"] => Proto.run ([] : PoolDrv.P) ConcDrv.step
   | _ => IO.eprintln "usage: drv_pool <family>"
